@@ -3,6 +3,7 @@ use crate::run::Builder;
 pub mod mutex;
 pub mod sem;
 pub mod reuse;
+pub mod cancelmix;
 pub mod park;
 pub mod scope;
 pub mod cqueue;
@@ -17,6 +18,7 @@ pub fn lookup(name: &str) -> Option<Builder> {
         "sem" => Some(sem::build),
         "reuse" => Some(reuse::build),
         "cls" => Some(reuse::build_cls),
+        "cancelmix" => Some(cancelmix::build),
         "park" => Some(park::build),
         "scope" => Some(scope::build),
         "cqueue" => Some(cqueue::build),
